@@ -871,7 +871,9 @@ class RepositoryMachine(Machine):
                 ck = ckey(fam, root, e["key"])
                 prev = offered.pop(ck, None)
                 vals = list(prev[1]) if prev else []
-                if e is not bad:
+                if e is not bad or how == "extrafield":
+                    # (an extra field makes no entry invalid by itself: families that copy the validated fields store it, and a
+                    #  call that fails for another reason - an injected storage fault - may have stored it before failing)
                     vals.append(expected(fam, e["payload"]))
                 offered[ck] = (e["key"], vals)       # several entries may alias one key (case, white space, isotope symbol)
             except Exception:
